@@ -130,7 +130,7 @@ Local Notation GSQRT :=
   (gsqrt Z mulGeneric square exp isZero isOneS isOneM 0 gE FfgConsts.sqrtExp FfgConsts.sqrt_r).
 
 Lemma legendre_eq : forall x, legendre x = GLEG x.
-Proof. intros x. reflexivity. Qed.
+Proof. intros x. unfold legendre, glegendre, isOneL. reflexivity. Qed.
 
 Lemma sqn_eq : forall n t, sqn n t = gsqn Z square n t.
 Proof. induction n as [ | n IH]; intros t; cbn [sqn gsqn]; [ reflexivity | apply IH ]. Qed.
@@ -153,10 +153,8 @@ Qed.
 
 Lemma sqrt_eq : forall x, sqrt x = of_g (GSQRT x).
 Proof.
-  intros x. unfold sqrt, gsqrt. cbv zeta.
+  intros x. unfold sqrt, gsqrt, isOneS, gE. cbv zeta.
   rewrite sqn_eq, ts_loop_eq.
-  fold gE. fold (isOneS (gsqn Z square (Z.to_nat (FfgConsts.sqrt_r - 1))
-    (mulGeneric (exp x FfgConsts.sqrtExp) (mulGeneric x (exp x FfgConsts.sqrtExp))))).
   destruct (isZero _); [ reflexivity | ].
   destruct (negb _); [ reflexivity | ].
   destruct (gts_loop _ _ _ _ _ _ _ _ _); reflexivity.
